@@ -134,7 +134,7 @@ PROPS = {
     "C10": {
         "level_text": "no_lost_update and schedule_independent (after any interleaving of acknowledged balance updates every wallet holds its initial credit plus the deltas addressed to it), peers_state_serialisable (the node and peer tables after any interleaving equal those of the serial execution in commit order, the commit point of a keep-alive being its UpdateNodePeers step: np_of_schedule), final_state_serialisable_partial, plus C05's racing_duplicates/at_most_once for nonce decisions, are Lean theorems over the atomic steps of the store. The full statement (one serial order of whole requests) is kept visible as FinalStateSerialisable; its excluded point (two in-flight keep-alives of one node) is proved to double-bill in the model (same_node_double_billing_counterexample), reproduced deterministically on the real pool and listed as a known finding. Snapshots: every balance and node record ever handed out is re-read after every later operation of the store streams. Real goroutines run the conc workloads on both drivers; their final states must equal the schedule-independent prediction.",
         "level_note": "Partial: (1) data-race freedom is a property of the Go memory model that the Lean model cannot exhibit - supported by running the concurrent streams under -race in the thorough tier; (2) the serialisability theorem covers the tables in commit order and the balances for requests of distinct identities, not the replies' balance read-backs; (3) atomicity of each store method (mutex / badger transaction with conflict retry) is assumed.",
-        "lean_modules": ["Vipnode.Props.C10"],
+        "lean_modules": ["Vipnode.Props.C10", "Vipnode.Props.C13L"],
         "streams": [
             {"name": "conc-memory", "component": "conc", "opts": {"driver": "memory"}, "cases": {"quick": 16, "thorough": 200}, "no_shrink": True, "race": True},
             {"name": "conc-badger", "component": "conc", "opts": {"driver": "badger"}, "cases": {"quick": 16, "thorough": 200}, "no_shrink": True, "race": True},
@@ -155,7 +155,7 @@ PROPS = {
     "C13": {
         "level_text": "migrate_current_identity, migrate_newer_refused, migrate_preserves (from every supported format the result is the current format with nodes, peers, links, balances and trials unchanged), migrate_idempotent, reopen_identity, txn_all_or_nothing and acknowledged_survive (a crash leaves the state after the acknowledged operations or after one more, given badger's atomic durable commit), trial_never_both_nor_lost (in every committed state a linked node has no trial entry and linking never changes the ledger total) are Lean theorems about the persistence model. The real driver is run on disk: histories with close/reopen after random prefixes, a child process applying operations and killed with SIGKILL, databases prepared at formats 0, 1, 2 and 3 (raw version key), readers taking Stats snapshots while trial balances are migrated.",
         "level_note": "Assumed, sampled by the kill stream: badger commits are atomic and durable, each store method is one transaction (the model's unit). Not modelled: OS / filesystem / fsync behaviour and badger internals (a SIGKILL leaves the page cache intact, so power-loss durability is outside what this sandbox can exercise).",
-        "lean_modules": ["Vipnode.Props.C13"],
+        "lean_modules": ["Vipnode.Props.C13", "Vipnode.Props.C13L"],
         "streams": [{"name": "persist-disk", "component": "persist", "cases": {"quick": 12, "thorough": 150}, "no_shrink": True},
                     {"name": "store-badger", "component": "store", "opts": {"driver": "badger"}, "cases": {"quick": 100, "thorough": 1000}},
                     # acknowledged credits racing with the multi-key trial migration (link) on the persistent driver
